@@ -155,6 +155,9 @@ def main(argv):
     if prop == 'C16':
         return run_parser_property(prop, job=props.c16_job,
                                    extra=lambda rs: dict(differential_comparisons=sum(r.get('comparisons', 0) for r in rs), extra_forks_on_trivia_free_side=sum(r.get('extra_forks', 0) for r in rs)))
+    if prop == 'C12':
+        from . import c12
+        return c12.main(tier(), seed())
     if prop == 'C15':
         def gsel(t, sd):
             gs = select('C15', t, sd)
